@@ -72,7 +72,8 @@ func (m *modelProc) stop() {
 
 // caseLine is the text after the case id in cases.txt.
 func caseLine(src string, prog ast.Node) string {
-	return fmt.Sprintf("EVAL %d %s %s", implMaxDepth, Hx([]byte(src)), Hx([]byte(DumpAST(prog))))
+	// the dump only uses ( ) [ ] - and alphanumerics (token literals are hex inside it): spaces become '_'
+	return fmt.Sprintf("EVAL %d %s %s", implMaxDepth, Hx([]byte(src)), strings.ReplaceAll(DumpAST(prog), " ", "_"))
 }
 
 // ask returns the model's observation for one case line (without the id), e.g. "OUT - RES V I3" or "SKIP unk".
